@@ -12,7 +12,7 @@ Import ListNotations.
 From BB Require Import BN Brute SpaceFacts TrapFacts PercolateFacts AttractorFacts Diagram Invariants Checks Filter
   Strict PetriNet Control Meta FilterFacts PetriNetFacts TrappistFacts DiagramStruct DiagramSem1 DiagramCache
   DiagramDepth DiagramComplete Termination ControlFacts MetaFacts Candidates StrictFacts MinExpandFacts CandidatesFacts SymbolicTest SymbolicTestFacts Signed ReductionFacts ControlFacts2 Main Blocks BlocksFacts ObsFacts OwnerFacts CandidatesTerm
-  PartialOwner BlockMath BlockComplete ASeeds ASeedsFacts LogChecks SkipRule SkipRuleFacts Names NamesFacts Perm PermFacts SCC SCCFacts SCCStruct ControlFacts3 SCCTerm FilterSym Main2 StrategyFacts ControlFacts4 PyLib PySrc PySrcFacts SkipRuleFacts2 SCCComplete SCCAttr BlockComplete2 ControlFacts5 Iso SkipSem ControlFacts6.
+  PartialOwner BlockMath BlockComplete ASeeds ASeedsFacts LogChecks SkipRule SkipRuleFacts Names NamesFacts Perm PermFacts SCC SCCFacts SCCStruct ControlFacts3 SCCTerm FilterSym Main2 StrategyFacts ControlFacts4 SkipRuleFacts2 SCCComplete SCCAttr BlockComplete2 ControlFacts5 Iso SkipSem ControlFacts6.
 
 (* models = trap spaces inside ensure and not inside an avoided space *)
 Theorem C09_trap_program_min : forall (N : net) (pn : pnet) (ensure : list (option bool)) (avoid : list (list (option bool))) (srcs : list nat) (S : list (option bool)), let n := nvars N in pn_wf n pn -> pn_faithful N pn -> length ensure = n -> (forall a : list (option bool), In a avoid -> length a = n) -> length S = n -> is_model (model_of_space S) (trap_program PMin false pn ensure avoid srcs) = true <-> trap_space N S /\ subspace S ensure = true /\ forallb (fun a : space => negb (subspace S a)) avoid = true.
